@@ -8,7 +8,8 @@ package spy
 // at the service boundary.  All lines of a scenario are written under one harness mutex (r.mu), so the order
 // of the lines is a real-time order of the events; sequence numbers, never timestamps.
 //
-//   SubscribeCalled(s, f)   the handler goroutine is about to be started
+//   SubscribeCalled(s, f, valid, conn, peer)  the handler goroutine is about to be started; valid = no filter entry of
+//                           an unknown kind; conn/peer = the client connection (peer address in the stream context)
 //   Subscribed(s)           the handler reached its select loop (first Context() call seen)
 //   PublishCalled(v)        about to call Publish
 //   PublishReturned(v,err)  Publish returned
@@ -34,6 +35,7 @@ import (
 	"encoding/hex"
 	"errors"
 	"fmt"
+	"net"
 	"os"
 	"regexp"
 	"runtime"
@@ -49,6 +51,7 @@ import (
 	spyv1 "github.com/alephium/wormhole-fork/node/pkg/proto/spy/v1"
 	"go.uber.org/zap"
 	"google.golang.org/grpc"
+	"google.golang.org/grpc/peer"
 )
 
 var shDeadline = 5 * time.Second
@@ -173,17 +176,31 @@ func shEmitterBytes(c int, a string) [32]byte {
 
 // vaaBytes builds a real signed VAA encoding for abstract (id, chain, address name).  Called by the scenario's
 // driver goroutine only (r.seq is its own); the name table is shared with the stream goroutines, hence r.mu.
-func (r *shRun) vaaBytes(id string, c int, a string) []byte {
+//
+// bad != "" makes bytes that the VAA decoder refuses: "empty-payload" (a guardian-signed message without payload),
+// "truncated" (cut inside the body), "short" (cut inside the header), "version" (unknown version byte).
+func (r *shRun) vaaBytes(id string, c int, a string, bad string) []byte {
 	r.seq++
 	v := &vhVAA{Version: 1, SetIndex: 0, Ts: 1700000000 + uint32(r.seq), Nonce: uint32(r.sc), EChain: uint16(c),
 		TChain: 0, Emitter: shEmitterBytes(c, a), Seq: r.seq, CL: 1,
 		Payload: vhExpand(fmt.Sprintf("payload|%d|%s", r.sc, id), 1+int(r.seq%90))}
+	if bad == "empty-payload" {
+		v.Payload = nil
+	}
 	sig := r.w.keys.Sign("g1", v.Digest())
 	var s vhSig
 	s.Index = 0
 	copy(s.Sig[:], sig)
 	v.Sigs = []vhSig{s}
 	b := v.Encode()
+	switch bad {
+	case "truncated":
+		b = b[:6+66+30]
+	case "short":
+		b = b[:20]
+	case "version":
+		b[0] = 7
+	}
 	r.mu.Lock()
 	r.names[hex.EncodeToString(b)] = id
 	r.mu.Unlock()
@@ -334,7 +351,19 @@ func (r *shRun) recovered(call string, a map[string]interface{}, mark func()) {
 }
 
 func (r *shRun) subscribe(name string, filters []interface{}, dup bool) bool {
-	ctx, cancel := context.WithCancel(context.Background())
+	return r.subscribeReq(name, filters, dup, "", 0, "")
+}
+
+// subscribeReq: conn names the client connection the stream comes over (streams of one connection share the peer address
+// in their context, as with a real gRPC transport; "" = a connection of its own); unknown = how many filter entries of a
+// kind this server version does not know (a FilterEntry whose oneof is not set) the request carries, at = where.
+func (r *shRun) subscribeReq(name string, filters []interface{}, dup bool, conn string, unknown int, at string) bool {
+	if conn == "" {
+		conn = "own-" + name
+	}
+	h := vhExpand(fmt.Sprintf("conn|%d|%s", r.sc, conn), 6)
+	addr := &net.TCPAddr{IP: net.IPv4(10, h[0], h[1], 1+h[2]%250), Port: 20000 + int(h[3])<<4 + int(h[4])%16}
+	ctx, cancel := context.WithCancel(peer.NewContext(context.Background(), &peer.Peer{Addr: addr}))
 	st := &shStream{r: r, name: name, ctx: ctx, cancel: cancel, mode: "ok", clean: true, got: map[string]bool{}}
 	req := &spyv1.SubscribeSignedVAARequest{}
 	logged := []interface{}{}
@@ -343,10 +372,20 @@ func (r *shRun) subscribe(name string, filters []interface{}, dup bool) bool {
 		req.Filters = append(req.Filters, &spyv1.FilterEntry{Filter: &spyv1.FilterEntry_EmitterFilter{
 			EmitterFilter: &spyv1.EmitterFilter{ChainId: publicrpcv1.ChainID(c), EmitterAddress: hex.EncodeToString(e[:])}}})
 	}
+	if at != "end" {
+		for i := 0; i < unknown; i++ {
+			req.Filters = append(req.Filters, &spyv1.FilterEntry{})
+		}
+	}
 	for _, f := range filters {
 		m := f.(map[string]interface{})
 		add(vhInt(m, "c", 0), vhStr(m, "a"))
 		logged = append(logged, map[string]interface{}{"c": vhInt(m, "c", 0), "a": vhStr(m, "a")})
+	}
+	if at == "end" {
+		for i := 0; i < unknown; i++ {
+			req.Filters = append(req.Filters, &spyv1.FilterEntry{})
+		}
 	}
 	if dup && len(filters) > 0 {
 		m := filters[0].(map[string]interface{})
@@ -359,7 +398,8 @@ func (r *shRun) subscribe(name string, filters []interface{}, dup bool) bool {
 	r.mu.Lock()
 	r.subs[name] = st
 	r.order = append(r.order, name)
-	r.emit("SubscribeCalled", map[string]interface{}{"s": name, "f": logged, "dup": dup && len(filters) > 0})
+	r.emit("SubscribeCalled", map[string]interface{}{"s": name, "f": logged, "dup": dup && len(filters) > 0, "valid": unknown == 0,
+		"unknown": unknown, "conn": conn, "peer": addr.String()})
 	r.mu.Unlock()
 	go func() {
 		g := shGid()
@@ -386,15 +426,23 @@ func (r *shRun) subscribe(name string, filters []interface{}, dup bool) bool {
 	if r.panicked {
 		return false
 	}
+	if st.returned && !st.entered {
+		return true // the request was refused: the handler returned (Removed is logged) without entering its loop
+	}
 	r.emit("Subscribed", map[string]interface{}{"s": name})
 	return true
 }
 
 func (r *shRun) publish(id string, c int, a string) bool {
-	b := r.vaaBytes(id, c, a)
+	return r.publishBytes(id, c, a, "")
+}
+
+func (r *shRun) publishBytes(id string, c int, a string, bad string) bool {
+	b := r.vaaBytes(id, c, a, bad)
 	p := &shPub{}
 	r.mu.Lock()
-	r.emit("PublishCalled", map[string]interface{}{"v": map[string]interface{}{"id": id, "em": map[string]interface{}{"c": c, "a": a}}})
+	r.emit("PublishCalled", map[string]interface{}{"v": map[string]interface{}{"id": id, "em": map[string]interface{}{"c": c, "a": a},
+		"ok": bad == "", "bad": bad}})
 	r.mu.Unlock()
 	go func() {
 		g := shGid()
@@ -635,11 +683,11 @@ func shRunScenario(w *shWorld, sc vhScenario) {
 	for _, st := range sc.Steps {
 		switch st.Ev {
 		case "Subscribe":
-			ok = r.subscribe(vhStr(st.A, "s"), vhList(st.A, "f"), vhBool(st.A, "dup"))
+			ok = r.subscribeReq(vhStr(st.A, "s"), vhList(st.A, "f"), vhBool(st.A, "dup"), vhStr(st.A, "conn"), vhInt(st.A, "unknown", 0), vhStr(st.A, "at"))
 		case "Publish":
 			v := vhMap(st.A, "v")
 			em := vhMap(v, "em")
-			ok = r.publish(vhStr(v, "id"), vhInt(em, "c", 0), vhStr(em, "a"))
+			ok = r.publishBytes(vhStr(v, "id"), vhInt(em, "c", 0), vhStr(em, "a"), vhStr(v, "bad"))
 		case "Stall", "Resume", "Fail", "Cancel":
 			r.fault(st.Ev, vhStr(st.A, "s"))
 		case "Sync":
